@@ -106,6 +106,47 @@ def main():
         if n not in [x for _, x in expect]:
             print("  unexpected rejection of line %d: %s" % (n, all_lines[n - 1]))
 
+    # ---- wire level (real OKX connection against the loopback exchange)
+    def fr(t, *vs):
+        return {"t": t, "vs": list(vs)}
+    wscn = {"mode": "stream", "pol": {"b0": 125, "mult": 2, "max": 60000},
+            "wire": [{"need": 2, "frames": [fr("data", 1, 2), fr("conf"), fr("data", 3, 4), fr("garbage", 5), fr("data", 6), fr("conf"),
+                                            fr("data", 7, 8, 9), fr("garbage", 10), fr("data", 11)]},
+                     {"need": 2, "frames": [fr("conf"), fr("conf"), fr("data", 12, 13)]}]}
+    with open(scn, "w") as f:
+        f.write(json.dumps(wscn) + "\n")
+    ctx.harness("c12", "wire", "--scenarios", scn, "--out", out)
+    w = ctx.read_trace(out)
+    assert [l["v"] for l in w if l["a"] == "Emit" and l["k"] != "Notice"] == [3, 4, 6, 7, 8, 9, 10, 11, 12, 13], w
+    wcases, wexpect, wall = [], [], []
+
+    def wcase(name, f, e):
+        s = copy.deepcopy(w)
+        f(s)
+        wcases.append((name, s, e))
+    at = lambda v: idx(w, lambda l: l["a"] == "Emit" and l["v"] == v and l["k"] != "Notice")
+    wcase("wire uncorrupted", lambda s: None, None)
+    wcase("wire: frame buffered between the confirmations lost", lambda s: s.__delitem__(slice(at(3), at(6))), at(3))
+    wcase("wire: buffered frames delivered in reverse", lambda s: (s[at(3)].update(v=6), s[at(4)].update(v=4), s[at(6)].update(v=3)), at(3))
+    wcase("wire: trades of one frame reversed", lambda s: (s[at(7)].update(v=9), s[at(9)].update(v=7)), at(7))
+    wcase("wire: frame sent before any confirmation delivered", lambda s: s.insert(at(3), {"a": "Emit", "k": "Item", "v": 1, "at": 0, "via": "stream"}), at(3))
+    wcase("wire: garbage after validation swallowed", lambda s: s.pop(at(10)), at(10))
+    wcase("wire: cut before the second connection delivered everything", lambda s: s.__delitem__(slice(at(13), len(s) - 1)), at(13))
+    for name, seg, e in wcases:
+        if e is not None:
+            wexpect.append((name, len(wall) + e + 1))
+        wall += seg
+    with open(p, "w") as f:
+        for l in wall:
+            f.write(json.dumps(l) + "\n")
+    _, wbad, _ = ctx.tlc_trace("Trace_Reconnect", "Trace_Reconnect.cfg", p)
+    ok = ok and sorted(wbad) == sorted(n for _, n in wexpect)
+    for name, n in wexpect:
+        print("  %-75s line %4d %s" % (name, n, "rejected" if n in wbad else "NOT REJECTED"))
+    for n in wbad:
+        if n not in [x for _, x in wexpect]:
+            print("  unexpected rejection of line %d: %s" % (n, wall[n - 1]))
+
     # ---- merge
     ops = ["SendL", "SendL", "SendR", "Poll", "Poll", "Poll", "Poll", "CloseR", "Poll", "Poll", "SendL"]
     with open(scn, "w") as f:
